@@ -174,6 +174,10 @@ func distinctive(pw []byte, c c09Case) bool {
 func runCase(c c09Case) *vh.Failure {
 	s := script(c)
 	res := loginpeer.Run(cfg(c, c.Password), s, 2*time.Second)
+	if c.Reject == "" && loginpeer.Patient(res) {
+		// a valid login that failed by the deadline alone: the machine is busy - once more, patiently
+		res = loginpeer.Run(cfg(c, c.Password), s, 20*time.Second)
+	}
 	where := fmt.Sprintf("user %q password %d bytes, %d remotes, key %d bits, nonce %d bytes, packet size %d, reject=%q plain=%v", c.User, len(c.Password), len(c.Remotes), c.Key.Bits, len(c.Nonce), c.PackSize, c.Reject, c.Plain)
 	if res.Panic != nil {
 		return vh.Failf("C09/login-panics", "%s: %v", where, res.Panic)
@@ -307,6 +311,9 @@ func runCase(c c09Case) *vh.Failure {
 	}
 	// (2) non-interference
 	res2 := loginpeer.Run(cfg(c, c.Password2), s, 2*time.Second)
+	if loginpeer.Patient(res2) {
+		res2 = loginpeer.Run(cfg(c, c.Password2), s, 20*time.Second)
+	}
 	if res2.Panic != nil || res2.TimedOut || !res2.GotMsg2 {
 		return vh.Failf("C09/non-interference", "%s: second login (other password of the same length) behaves differently: panic=%v timedout=%v msg2=%v err=%v", where, res2.Panic, res2.TimedOut, res2.GotMsg2, res2.Err)
 	}
